@@ -37,6 +37,11 @@ def verify(reg, quals, verbose=True, cex_bound=None, **kw):
         except (StopIteration, KeyError, AttributeError, TypeError, IndexError, z3.Z3Exception) as e:
             # the function left the subset in a way the executor did not anticipate: undecided, never a verdict
             undecided.append((q, f"engine could not process the function: {type(e).__name__}: {e}"))
+    if cex_bound is None:
+        for name, fn in getattr(reg, "static_checks", []):
+            try: okk, detail = fn(reg)
+            except Exception as e: undecided.append((name, f"static check could not run: {type(e).__name__}: {e}")); continue
+            o = Obligation(f"{name}", "static", [], z3.BoolVal(bool(okk))); o.detail = detail; allobs.append(o)
     gen = time.time() - t0
     discharge_all(allobs, **kw)
     if verbose:
